@@ -716,6 +716,8 @@ def run_prog(g, with_int3=False, with_tf=False):
     src = "\n".join(dlines) + "\n" + nested + "\n".join(procs) + "\n" + main + r.choice(["\n", "", "\n\n; end\n"])
     if r.random() < 0.3:
         src = src.replace("\n", " ; c\n", r.randrange(1, 4))
+    if r.random() < 0.12:
+        src = src.replace("\n", "\r\n")
     return src
 
 def cli_cases(g, group, thorough):
@@ -838,9 +840,11 @@ def cli_cases(g, group, thorough):
                 out.append(("i", f"start:\nmov ax, {seg}\nmov ds, ax\nmov byte [3], 0x5A\nnop\n", f"n\nn\nn\nprint mem : {cnt}\nn\n") + (("5A",) if inside else ()))
     elif group == "diag":
         base_cases = errors_x(g, thorough, 0)
-        for c, verdict in base_cases:
+        for ci, (c, verdict) in enumerate(base_cases):
             ex = (verdict,) if verdict else ()
             out.append(("-", c, "") + ex)
+            if ci % 5 == 0:
+                out.append(("-", c.replace("\n", "\r\n"), "") + ex)          # CRLF line ends: same lines, same columns
             out.append(("-", "; header comment\n\n" + c.rstrip("\n"), "") + ex)       # shifted lines, no trailing newline
             out.append(("-", r.choice(["\n", ";c\n", " \n"]) + c, "") + ex)              # an empty first line: messages about line 2
         # single-token corruptions at every token position of a valid program
@@ -922,6 +926,17 @@ def cli_cases(g, group, thorough):
                     img[(seg * 16 + off) % 1048576] = bt
                     off += 1
             nd = r.randrange(1, 9)
+            top = r.random() < 0.2
+            if top:
+                seg = r.choice([0xFFFF, 0xFFFE, 0xFFF1]); off = 0
+                lines.append("set %d" % seg)
+                touched.append((seg, 0))
+                if r.random() < 0.7:
+                    lines.append("db 0x77"); put([0x77])
+                v = r.choice([0x1234, 0xABCD, 0x00FF, 0x8001]); c = r.choice([9, 12, 20, 130])
+                lines.append("dw [%d,%d]" % (v, c)); put([v % 256, v // 256] * c)
+                touched.append((0, 0))
+                nd = r.randrange(0, 3)
             for k in range(nd):
                 if r.random() < 0.25:
                     seg = r.choice([0, 1, 2, 0x10, 0x1000, 0xFFFF, 0xFFFE, r.randrange(65536)])
